@@ -23,7 +23,9 @@ CONSTANTS
     Prios,       \* priorities handlers may use
     RelDelays,   \* delays for schedule_event_rel (a negative one = illegal request)
     AbsTimes,    \* times for schedule_event_abs (one before the clock = illegal request)
-    BadKinds,    \* subset of {"nan_abs", "nan_rel", "str_abs"}: ill-formed requests
+    BadKinds,    \* ill-formed requests {"nan_abs", "nan_rel", "str_abs", "neg_tiny"} and commands a handler issues while the
+                 \* simulator runs {"reinit", "hstart", "hrun", "hstep"} (initialize / start / run_up_to[_including] / step):
+                 \* all refused, and a refused request changes nothing (result 0, no effect on events, clock, bound, states)
     MaxOps,      \* operations per handler
     Strategy,    \* initial error strategy: "continue" (log/warn and continue) or "pause" (warn and pause)
     Bounds,      \* bounds offered to run_up_to / run_up_to_including
@@ -160,7 +162,7 @@ InitializeWith(iops) ==
 
 Initialize == \E iops \in IF initOps = Unset
                           THEN {s \in OpSeqs(0) : /\ NSched(s) <= MaxId - 1
-                                                   /\ \A i \in 1..Len(s) : s[i].k \notin {"strat", "reinit", "endrep"}}
+                                                   /\ \A i \in 1..Len(s) : s[i].k \notin {"strat", "reinit", "endrep", "hstart", "hrun", "hstep"}}
                           ELSE {initOps} : InitializeWith(iops)
 
 CanStart == rs \in {"INITIALIZED", "STOPPED"} /\ rep \in {"INITIALIZED", "STARTED"} /\ clock < EndT
